@@ -1,0 +1,74 @@
+//go:build verif
+
+// Contracts for the verification machinery in /verif (comment-only; never compiled into a binary).
+// Property C11: node-pressure eviction takes only eligible victims, in order, and only as needed.
+// This file: victim eligibility (who may appear in a task's sorted victim list) and the release targets of the
+// memory strategies. The order produced by sort.Slice is not modelled (elements are permuted by a bijection of the
+// index range), so element-wise eligibility facts survive the sort.
+
+package memoryevict
+
+//@ uses apis/extension, pkg/koordlet/qosmanager/plugins/util, pkg/util
+
+// BE memory eviction: every victim is a pod of the given list that is best-effort (label koordinator.sh/qosClass = BE)
+// and has not opted out of this eviction policy.
+//@ func (*memoryEvictor).getSortedBEPodInfos [C11]
+//@   requires forall i int :: {pods[i]} 0 <= i && i < len(pods) ==> pods[i] != nil
+//@   ensures #eligible: forall j int :: {result[j]} 0 <= j && j < len(result) ==> result[j] != nil && extension.podQoS(result[j].Pod) == extension.QoSBE && qosmanagerUtil.policyAllowed(evictionPolicy, result[j].Pod)
+//@   ensures #from: forall j int :: {result[j]} 0 <= j && j < len(result) ==> (exists i int :: 0 <= i && i < len(pods) && pods[i].Pod == result[j].Pod)
+//@   loop 1 invariant 0 <= $i && $i <= len(pods)
+//@   loop 1 invariant forall j int :: {bePodInfos[j]} 0 <= j && j < len(bePodInfos) ==> bePodInfos[j] != nil
+//@   loop 1 invariant forall j int :: {bePodInfos[j]} 0 <= j && j < len(bePodInfos) ==> extension.podQoS(bePodInfos[j].Pod) == extension.QoSBE
+//@   loop 1 invariant forall j int :: {bePodInfos[j]} 0 <= j && j < len(bePodInfos) ==> qosmanagerUtil.policyAllowed(evictionPolicy, bePodInfos[j].Pod)
+//@   loop 1 invariant forall j int :: {bePodInfos[j]} 0 <= j && j < len(bePodInfos) ==> (exists i int :: 0 <= i && i < $i && pods[i].Pod == bePodInfos[j].Pod)
+
+// Priority-threshold memory eviction (MemoryEvict / MemoryAllocatableEvict): every victim is a pod of the given list that
+// is active, has not opted out of the policy, has eviction enabled by label, and whose priority (recorded in the
+// victim info) is not above the threshold; a pod is only taken when its metric query succeeded.
+//@ func (*memoryEvictor).getPodEvictInfoAndSortByPriority [C11]
+//@   requires forall i int :: {pods[i]} 0 <= i && i < len(pods) ==> pods[i] != nil
+//@   requires apiext.rangesOK() && apiext.DefaultPriorityClass == apiext.PriorityNone     // configuration invariant of the priority bands (as in C13)
+//@   ensures #nonnil: forall j int :: {result[j]} 0 <= j && j < len(result) ==> result[j] != nil
+//@   ensures #priority: forall j int :: {result[j]} 0 <= j && j < len(result) ==> result[j].Priority <= priorityThreshold && result[j].Priority == apiext.podPrioValue(result[j].Pod)
+//@   ensures #active: forall j int :: {result[j]} 0 <= j && j < len(result) ==> result[j].Pod != nil && (result[j].Pod.Status.Phase == corev1.PodPending || result[j].Pod.Status.Phase == corev1.PodRunning)
+//@   ensures #enabled: forall j int :: {result[j]} 0 <= j && j < len(result) ==> apiext.evictEnabled(result[j].Pod)
+//@   ensures #policy: forall j int :: {result[j]} 0 <= j && j < len(result) ==> qosmanagerUtil.policyAllowed(evictionPolicy, result[j].Pod)
+//@   ensures #from: forall j int :: {result[j]} 0 <= j && j < len(result) ==> (exists i int :: 0 <= i && i < len(pods) && pods[i].Pod == result[j].Pod)
+//@   assert before call GetRequestTypeAndValueFromPod: #metric: lastresult("CollectPodMetricLast", 1) == nil
+//@   option observers subSortFun Pod
+//@   loop 1 invariant 0 <= $i && $i <= len(pods)
+//@   loop 1 invariant forall j int :: {podsInfos[j]} 0 <= j && j < len(podsInfos) ==> podsInfos[j] != nil && fresh(podsInfos[j])     // victims collected so far are objects allocated earlier in this call: distinct from the next one allocated
+//@   loop 1 invariant forall j int :: {podsInfos[j]} 0 <= j && j < len(podsInfos) ==> podsInfos[j].Priority <= priorityThreshold && podsInfos[j].Priority == apiext.podPrioValue(podsInfos[j].Pod)
+//@   loop 1 invariant forall j int :: {podsInfos[j]} 0 <= j && j < len(podsInfos) ==> podsInfos[j].Pod != nil && (podsInfos[j].Pod.Status.Phase == corev1.PodPending || podsInfos[j].Pod.Status.Phase == corev1.PodRunning)
+//@   loop 1 invariant forall j int :: {podsInfos[j]} 0 <= j && j < len(podsInfos) ==> apiext.evictEnabled(podsInfos[j].Pod)
+//@   loop 1 invariant forall j int :: {podsInfos[j]} 0 <= j && j < len(podsInfos) ==> qosmanagerUtil.policyAllowed(evictionPolicy, podsInfos[j].Pod)
+//@   loop 1 invariant forall j int :: {podsInfos[j]} 0 <= j && j < len(podsInfos) ==> (exists i int :: 0 <= i && i < $i && pods[i].Pod == podsInfos[j].Pod)
+
+// Release target by node memory usage. With cap = node capacity (bytes), used = the node metric read from the metric
+// cache (environment), usage% = used*100/cap (integer division) and lower% = MemoryEvictLowerPercent, or threshold% - 2
+// when unset: nothing is to be released while usage% < threshold%; otherwise exactly cap*(usage% - lower%)/100 bytes
+// of memory, and of nothing else.
+//@ spec func memCap(node *corev1.Node) int64 = val(node.Status.Capacity, corev1.ResourceMemory).Value()
+//@ spec func memLower(c *slov1alpha1.ResourceThresholdStrategy) int64 = c.MemoryEvictLowerPercent != nil ? deref(c.MemoryEvictLowerPercent) : deref(c.MemoryEvictThresholdPercent) - memoryReleaseBufferPercent
+//@ func (*memoryEvictor).calculateReleaseByUsedThresholdPercent [C11]
+//@   requires m != nil && node != nil && memCap(node) > 0
+//@   requires thresholdConfig != nil && thresholdConfig.MemoryEvictThresholdPercent != nil
+//@   ensures #fresh: overall != nil && fresh(overall)
+//@   ensures #only: forall n corev1.ResourceName :: {has(overall, n)} has(overall, n) ==> n == corev1.ResourceMemory
+//@   ensures #nometric: calls("CollectorNodeMetricLast") == 0 || lastresult("CollectorNodeMetricLast", 1) != nil ==> !has(overall, corev1.ResourceMemory)
+//@   ensures #below: calls("CollectorNodeMetricLast") == 1 && tdiv(int64(lastresult("CollectorNodeMetricLast", 0)) * 100, old(memCap(node))) < old(deref(thresholdConfig.MemoryEvictThresholdPercent)) ==> !has(overall, corev1.ResourceMemory)
+//@   ensures #formula: has(overall, corev1.ResourceMemory) ==> calls("CollectorNodeMetricLast") == 1 && val(overall, corev1.ResourceMemory) == tdiv(old(memCap(node)) * (tdiv(int64(lastresult("CollectorNodeMetricLast", 0)) * 100, old(memCap(node))) - old(memLower(thresholdConfig))), 100)    // old(): capacity and thresholds as read at entry (nothing pre-existing is modified)
+//@   modifies nothing
+
+// The two priority-threshold strategies take their threshold from the node SLO (validated non-nil by the config check).
+//@ func (*memoryEvictor).getPodEvictInfoAndSortByUsed [C11]
+//@   requires forall i int :: {pods[i]} 0 <= i && i < len(pods) ==> pods[i] != nil
+//@   requires apiext.rangesOK() && apiext.DefaultPriorityClass == apiext.PriorityNone
+//@   requires thresholdConfig != nil && thresholdConfig.EvictEnabledPriorityThreshold != nil
+//@   ensures #eligible: forall j int :: {result[j]} 0 <= j && j < len(result) ==> result[j] != nil && result[j].Priority <= old(deref(thresholdConfig.EvictEnabledPriorityThreshold)) && result[j].Priority == apiext.podPrioValue(result[j].Pod) && apiext.evictEnabled(result[j].Pod) && qosmanagerUtil.policyAllowed(evictionPolicy, result[j].Pod)
+
+//@ func (*memoryEvictor).getPodEvictInfoAndSortByAllocatable [C11]
+//@   requires forall i int :: {pods[i]} 0 <= i && i < len(pods) ==> pods[i] != nil
+//@   requires apiext.rangesOK() && apiext.DefaultPriorityClass == apiext.PriorityNone
+//@   requires thresholdConfig != nil && thresholdConfig.AllocatableEvictPriorityThreshold != nil
+//@   ensures #eligible: forall j int :: {result[j]} 0 <= j && j < len(result) ==> result[j] != nil && result[j].Priority <= old(deref(thresholdConfig.AllocatableEvictPriorityThreshold)) && result[j].Priority == apiext.podPrioValue(result[j].Pod) && apiext.evictEnabled(result[j].Pod) && qosmanagerUtil.policyAllowed(evictionPolicy, result[j].Pod)
